@@ -306,6 +306,21 @@ func cmdCheck(args []string) {
 				break
 			}
 		}
+		if !confirmed && len(vs) > 0 && vs[0].Replay != nil && len(vs[0].Replay.Sched) > 0 {
+			// schedule-dependent and not steerable through gates: stress the same scenario with real goroutines
+			b := nb
+			if vs[0].Prop == "RACE" {
+				b = nbRace
+			}
+			if b != nil {
+				res := b.stress(vs[0].Replay, dir, 500)
+				os.WriteFile(filepath.Join(dir, "native_output.txt"), []byte(res.Output), 0o644)
+				if res.confirms(sig) {
+					confirmed = true
+					validated++
+				}
+			}
+		}
 		switch {
 		case !confirmed:
 			inconclusive = append(inconclusive, fmt.Sprintf("counterexample not reproduced natively (engine or stub defect?): %s (%d paths)", sig, len(vs)))
